@@ -17,7 +17,7 @@ func init() {
 		// if fileHeaderSize != 12 && fileHeaderSize != 14 { ErrNotFITFile }
 		{Kind: "cond", Name: "Decode_badHeaderSize", Func: f, Anchor: "fileHeaderSize != 12"},
 		// for uint32(n-pos) < fileHeaderDataSize
-		{Kind: "loopcond", Name: "Decode_moreData", Func: f, Anchor: "fileHeaderDataSize"},
+		{Kind: "loopcond", Name: "Decode_moreData", Func: f, Anchor: "", Occur: 1}, // the first `for cond {}` loop of Decode
 		// if header & (compressed | definition) == definition
 		{Kind: "cond", Name: "Decode_isDefinition", Func: f, Anchor: "proto.MesgDefinitionMask"},
 		// lenMesgDef += nFields * 3; lenMesg := uint32(1); for i := uint16(0); i < nFields*3; i += 3 { lenMesg += uint32(d.BytesArray[fieldFirstIndex+i+1]) }
